@@ -40,6 +40,12 @@ func describeRemote(name string, t reflect.Type) RNode {
 	n := RNode{Name: name}
 	switch t.Kind() {
 	case reflect.Func:
+		if hasUnusableFuncParam(t) {
+			// valid for Link's validation (it only looks at the field's own signature) but no call through it
+			// ever reaches the wire: it has no observable wire name, so it is described like an ignored field
+			n.Kind = "other"
+			return n
+		}
 		n.Kind, n.NIn, n.NOut = "func", t.NumIn(), t.NumOut()
 		n.Ctx = t.NumIn() > 0 && t.In(0).Implements(ctxT)
 		n.ErrLast = t.NumOut() > 0 && t.Out(t.NumOut()-1).Implements(errT)
@@ -194,6 +200,10 @@ func runRemote[R any](name string) RemoteCase {
 					rc.Names[path] = "NIL-STUB"
 					continue
 				}
+				if hasUnusableFuncParam(f.Type()) {
+					// calling it ends the link by design (the closures workload does that on purpose)
+					continue
+				}
 				cctx, ccancel := context.WithCancel(context.Background())
 				args := []reflect.Value{reflect.ValueOf(cctx)}
 				for k := 1; k < f.Type().NumIn(); k++ {
@@ -337,6 +347,17 @@ func runRemoteE2E[R any](name string, local any, rec *pathRec) RemoteCase {
 		}
 	}
 	return rc
+}
+
+// a parameter of function type that cannot be turned into a closure (its last result is not an error)
+func hasUnusableFuncParam(t reflect.Type) bool {
+	for k := 0; k < t.NumIn(); k++ {
+		p := t.In(k)
+		if p.Kind() == reflect.Func && (p.NumOut() == 0 || !p.Out(p.NumOut()-1).Implements(errT)) {
+			return true
+		}
+	}
+	return false
 }
 
 func RunRemotes() []RemoteCase {
